@@ -211,6 +211,78 @@ def World.run (w : World) : List CopyOp → World × List (Option CopyEvent)
     let b := a.1.run ops
     (b.1, a.2 :: b.2)
 
+/-! ### `Filter` with a tag filter into another document (round 4)
+
+  `Filter(root, dst, fn)` for `fn = WhitelistTagFilter(tags…)` / `BlacklistTagFilter(tags…)`
+  (filter.go): `fn` returns the node itself and `true` when its tag is kept, `nil` otherwise — a
+  node that is not kept disappears with its whole subtree, a kept node is re-created by
+  `shallowCopyNode` against the destination document.  A kept role node asks the destination for
+  the counterpart of `node.Family()` — the FAM record it lives in, `ctx` — once per walk. -/
+
+mutual
+def filterTree (keep : Str → Bool) (next : Nat) : INode → Option (INode × Nat × List Nat)
+  | .mk _ t v p ks =>
+    if keep t then
+      let r := filterKids keep (next + 1) next ks
+      some (.mk next t v p r.1, r.2.1, r.2.2)
+    else none
+def filterKids (keep : Str → Bool) (next parent : Nat) : List INode → List INode × Nat × List Nat
+  | [] => ([], next, [])
+  | k :: ks =>
+    match filterTree keep next k with
+    | none => filterKids keep next parent ks
+    | some a =>
+      let b := filterKids keep a.2.1 parent ks
+      (a.1 :: b.1, b.2.1, a.2.2 ++ parent :: b.2.2)
+end
+
+mutual
+/-- the value of the filtered tree -/
+def pruneNode (keep : Str → Bool) : Node → Option Node
+  | .mk t v p ks => if keep t then some (.mk t v p (pruneList keep ks)) else none
+def pruneList (keep : Str → Bool) : List Node → List Node
+  | [] => []
+  | k :: ks =>
+    match pruneNode keep k with
+    | none => pruneList keep ks
+    | some x => x :: pruneList keep ks
+end
+
+mutual
+/-- the ids of the role nodes (HUSB / WIFE / CHIL) of a tree, preorder -/
+def roleIds : INode → List Nat
+  | .mk i t _ _ ks => (if needsFamily t then [i] else []) ++ roleIdsList ks
+def roleIdsList : List INode → List Nat
+  | [] => []
+  | k :: ks => roleIds k ++ roleIdsList ks
+end
+
+/-- `WhitelistTagFilter(tags)` (`white = true`) / `BlacklistTagFilter(tags)` as a predicate on tags -/
+def tagFilter (white : Bool) (tags : List Str) (t : Str) : Bool :=
+  if white then tags.contains t else !tags.contains t
+
+inductive FilterOutcome
+  /-- `fn(root)` is nil: `Filter` returns nil and nothing happens -/
+  | nil
+  /-- a kept role node whose `Family()` is nil -/
+  | panic
+  | ok (r : CopyDocResult)
+deriving Repr
+
+/-- `Filter(t, dst, fn)`; `ctx` = the FAM record `t` lives in (or is) -/
+def filterIntoDoc (ctx : Option (Nat × Str)) (dst : DocSt) (next : Nat) (keep : Str → Bool)
+    (t : INode) : FilterOutcome × DocSt :=
+  match filterTree keep next t with
+  | none => (.nil, dst)
+  | some (c, nx, wr) =>
+    if (roleIds c).isEmpty then (.ok ⟨c, dst.nodes, nx, wr, []⟩, dst)
+    else
+      match ctx with
+      | none => (.panic, dst)
+      | some (_, p) =>
+        let d' := dst.addFamilies nx [p]
+        (.ok ⟨c, d'.1.nodes, d'.2, wr, [p]⟩, d'.1)
+
 /-! ### nil -/
 
 /-- `DeepEqual(a, b)` where either may be nil (untyped or typed nil): false unless both are nodes -/
